@@ -191,50 +191,56 @@ Section Sound.
   Qed.
 End Sound.
 
-Lemma EqualObjects_nonrefs : forall f g o1 o2 pairs,
-  isref o1 && isref o2 = false ->
-  EqualObjects (S f) g o1 o2 pairs = compareDeref g (EqualObjects f g) o1 o2 pairs.
-Proof. intros f g o1 o2 pairs H. destruct o1, o2; simpl in *; try reflexivity; discriminate. Qed.
-
-Lemma eq_sound_gen : forall g, wfg g -> forall n fuel o1 o2 pairs,
-  wfo o1 = true -> wfo o2 = true -> evenlen pairs = true ->
-  EqualObjects fuel g o1 o2 pairs = CT -> Phyp n g pairs -> sim n g o1 g o2.
+Lemma equalObjects_nonrefs : forall f limit g o1 o2 pairs depth,
+  isref o1 && isref o2 = false -> (limit <? depth) = false ->
+  equalObjects (S f) limit g o1 o2 pairs depth =
+  compareDeref g (fun x y p => equalObjects f limit g x y p (depth + 1)) o1 o2 pairs.
 Proof.
-  intros g Hg n. induction n as [n IH] using lt_wf_ind.
-  intros fuel o1 o2 pairs W1 W2 Ev H HP.
+  intros f limit g o1 o2 pairs depth H L. simpl. rewrite L.
+  destruct o1, o2; simpl in *; try reflexivity; discriminate.
+Qed.
+
+Lemma eq_sound_gen : forall g limit, wfg g -> forall n fuel o1 o2 pairs depth,
+  wfo o1 = true -> wfo o2 = true -> evenlen pairs = true ->
+  equalObjects fuel limit g o1 o2 pairs depth = CT -> Phyp n g pairs -> sim n g o1 g o2.
+Proof.
+  intros g limit Hg n. induction n as [n IH] using lt_wf_ind.
+  intros fuel o1 o2 pairs depth W1 W2 Ev H HP.
   destruct n as [|m]. exact I.
   destruct fuel as [|f]. discriminate.
+  destruct (limit <? depth) eqn:EL. simpl in H. rewrite EL in H. discriminate.
   destruct (isref o1 && isref o2) eqn:ER.
   - apply andb_true_iff in ER. destruct ER as [R1 R2].
     destruct o1; try discriminate. destruct o2; try discriminate.
     rename nr into n1, gen into g1, nr0 into n2, gen0 into g2.
-    pose proof H as H0. simpl in H.
+    pose proof H as H0. simpl in H. rewrite EL in H.
     destruct ((n1 =? n2) && (g1 =? g2)) eqn:Esame.
     + apply andb_true_iff in Esame. destruct Esame as [En _]. apply Z.eqb_eq in En. subst.
       apply (sim_ref_gen_l (S m) g n2 g2). apply sim_refl.
     + destruct (containsPair pairs n1 n2) eqn:EC.
       * apply Phyp_contains with (pairs := pairs); assumption.
-      * apply compareDeref_sound with (rec := EqualObjects f g) (pairs := appendPair pairs n1 n2); auto.
-        intros x y Wx Wy Hxy. apply (IH m (Nat.lt_succ_diag_r m) f x y (appendPair pairs n1 n2)); auto.
+      * apply compareDeref_sound with (rec := fun x y p => equalObjects f limit g x y p (depth + 1))
+                                      (pairs := appendPair pairs n1 n2); auto.
+        intros x y Wx Wy Hxy. apply (IH m (Nat.lt_succ_diag_r m) f x y (appendPair pairs n1 n2) (depth + 1)); auto.
         apply evenlen_appendPair. exact Ev.
         apply Phyp_append. exact Ev. apply Phyp_le with (n := S m). lia. exact HP.
         intros k Lk. apply (sim_ref_gen_l k g n1 g1). apply (sim_ref_gen_r k g _ g n2 g2).
         assert (k < S m)%nat as Lk' by lia.
-        apply (IH k Lk' (S f) (ORef n1 g1) (ORef n2 g2) pairs); auto.
+        apply (IH k Lk' (S f) (ORef n1 g1) (ORef n2 g2) pairs depth); auto.
         apply Phyp_le with (n := S m). lia. exact HP.
-  - rewrite EqualObjects_nonrefs in H by exact ER.
-    apply compareDeref_sound with (rec := EqualObjects f g) (pairs := pairs); auto.
-    intros x y Wx Wy Hxy. apply (IH m (Nat.lt_succ_diag_r m) f x y pairs); auto.
+  - rewrite equalObjects_nonrefs in H by assumption.
+    apply compareDeref_sound with (rec := fun x y p => equalObjects f limit g x y p (depth + 1)) (pairs := pairs); auto.
+    intros x y Wx Wy Hxy. apply (IH m (Nat.lt_succ_diag_r m) f x y pairs (depth + 1)); auto.
     apply Phyp_le with (n := S m). lia. exact HP.
 Qed.
 
 Lemma Phyp_nil : forall n g, Phyp n g [].
 Proof. intros n g a b C. simpl in C. discriminate. Qed.
 
-Theorem equal_objects_sound : forall g fuel o1 o2,
+Theorem equal_objects_sound : forall g limit fuel o1 o2,
   wfg g -> wfo o1 = true -> wfo o2 = true ->
-  EqualObjects fuel g o1 o2 [] = CT -> same_unfolding g o1 g o2.
+  EqualObjects fuel limit g o1 o2 [] = CT -> same_unfolding g o1 g o2.
 Proof.
-  intros g fuel o1 o2 Hg W1 W2 H n.
-  apply (eq_sound_gen g Hg n fuel o1 o2 [] W1 W2 eq_refl H (Phyp_nil n g)).
+  intros g limit fuel o1 o2 Hg W1 W2 H n.
+  apply (eq_sound_gen g limit Hg n fuel o1 o2 [] 0 W1 W2 eq_refl H (Phyp_nil n g)).
 Qed.
